@@ -658,6 +658,11 @@ def main(tier, replay=None):
     if replay:
         return do_replay(run, replay)
     proof_ok = run.proof_stage()
+    # second tie: the linear-optics core is re-translated from REPO's source and proved equal to Optics/Maps.v (Gen/MapsGenEquiv.v)
+    import translate_stage
+    tr = translate_stage.translator_obligation(run)
+    if tr["status"] != "ok":
+        run.notes.append("translator obligation: " + json.dumps(translate_stage.replay_fields(tr))[:600])
     if not proof_ok:
         run.notes.append(run.proof_problem)
 
@@ -718,6 +723,9 @@ def main(tier, replay=None):
         item = (structural or corr_fail)[0]
         run.violation(dict(item, broken="transfer_map entry disagrees with the Coq model Optics/Maps.v", n_failing=len(structural) + len(corr_fail)),
                       no_input=True)
+    elif tr["status"] != "ok":
+        # the source no longer translates to the proved model; none of this run's oracles found a failing input
+        run.violation(translate_stage.replay_fields(tr), no_input=True)
     elif not proof_ok:
         run.violation({"kind": "proof", "broken": run.proof_problem}, no_input=True)
     return run.finish("proof")
